@@ -405,3 +405,52 @@ def dump_cases():
             yield mk + [[b'dump', b'k'], [b'select', b'3'], [b'restore', b'c1', ttl, b'@PAYLOAD'], at(mutate[t], b'c1'), [b'select', b'0'], [b'restore', b'c1', b'0', b'@PAYLOAD']] + reads
         yield mk + [[b'dump', b'k'], [b'restore', b'k', b'0', b'@PAYLOAD'], [b'restore', b'c1', b'-1', b'@PAYLOAD'], [b'restore', b'c1', b'x', b'@PAYLOAD'], [b'restore', b'c1', b'0', b'@PAYLOAD', b'absttl'],
                     [b'multi'], [b'restore', b'c2', b'100', b'@PAYLOAD'], at(mutate[t], b'c2'), [b'ttl', b'c2'], [b'exec']] + reads
+
+
+# ------------------------------------------------------------------ connection / server commands in every mode (C04)
+
+def server_cases():
+    """PING / ECHO / SELECT / TIME-free server commands with every argument shape, directly, queued in MULTI, and in subscriber mode"""
+    probes = [[b'ping'], [b'ping', b''], [b'ping', b'x'], [b'PING', b'a b'], [b'ping', b'a', b'b'], [b'echo', b''], [b'echo', b'x'], [b'echo'], [b'echo', b'a', b'b'],
+              [b'select', b'0'], [b'select', b'15'], [b'select', b'16'], [b'select', b'-1'], [b'select', b''], [b'select', b'1', b'2'], [b'dbsize'], [b'dbsize', b'x'],
+              [b'lastsave'], [b'save'], [b'bgsave'], [b'flushdb', b'async'], [b'flushdb', b'sync'], [b'flushdb', b'x'], [b'flushall', b'async'], [b'flushall', b'x', b'y'],
+              [b'quit'] if False else [b'ping', b'\r\n'], [b'swapdb', b'0', b'0'], [b'swapdb', b'0', b'16'], [b'swapdb', b'a', b'1'], [b'move', b'k', b'0'], [b'move', b'k', b'16'],
+              [b'nosuch'], [b'nosuch', b''], [b''], [b'get'], [b'set', b'k'], [b'unwatch'], [b'unwatch', b'x'], [b'discard'], [b'exec'], [b'multi', b'x'], [b'watch']]
+    for f in probes:
+        yield [[b'set', b'k', b'v']] + [f, [b'ping']]
+        yield [[b'set', b'k', b'v'], [b'multi'], f, [b'ping', b''], [b'exec'], [b'ping']]
+        yield [[b'subscribe', b'ch'], f, [b'ping', b''], [b'ping'], [b'unsubscribe'], f]
+        yield [[b'psubscribe', b'c*'], f, [b'punsubscribe', b'c*'], f, [b'ping', b'']]
+    for a, b in ((x, y) for x in probes[:9] for y in probes[:9]):
+        yield [a, b]
+
+
+# ------------------------------------------------------------------ every command on a key of every type (C08)
+
+HOLDERS = [[b'set', b'H_str', b'text'], [b'set', b'H_empty', b''], [b'set', b'H_int', b'12'], [b'rpush', b'H_list', b'a', b'b'], [b'sadd', b'H_set', b'a', b'b'],
+           [b'hset', b'H_hash', b'f', b'1'], [b'zadd', b'H_zset', b'1', b'a', b'2', b'b'], [b'set', b'H_ttl', b'v', b'ex', b'1000']]
+
+
+def alltype_cases(rng, n):
+    """every modelled command with its first (and, separately, its second) argument replaced by a key holding each type - also the EMPTY string, which is falsy
+    in Python but a perfectly good string key: a command either works on that type or answers an error and changes nothing"""
+    g = gen.Gen(rng, alias=0.5)
+    names = [c for c in gen.ALL_MODELLED if c not in gen.FAMILY['pubsub'] + gen.FAMILY['tx'] + ['randomkey', 'flushall', 'flushdb', 'swapdb', 'select', 'time', 'save',
+                                                                                            'bgsave', 'lastsave', 'blpop', 'brpop', 'brpoplpush', 'dump', 'restore', 'sort']]
+    keys = [h[1] for h in HOLDERS] + [b'H_missing']
+    for c in names:
+        for _ in range(n):
+            f = g.command(c)
+            for pos in (1, 2):
+                if len(f) <= pos:
+                    continue
+                for k in keys:
+                    f2 = list(f)
+                    f2[pos] = k
+                    yield HOLDERS + [f2, [b'type', k], [b'ttl', k]]
+    for k in keys:
+        for f in ([b'lpop', k], [b'rpop', k], [b'lpop', k, b'0'], [b'rpop', k, b'2'], [b'llen', k], [b'lrange', k, b'0', b'-1'], [b'scard', k], [b'hlen', k], [b'zcard', k], [b'strlen', k],
+                  [b'getrange', k, b'0', b'-1'], [b'append', k, b''], [b'incr', k], [b'mget', k, b'H_str'], [b'sort', k], [b'sort', k, b'by', b'nosort'], [b'blpop', k, b'H_list', b'1'],
+                  [b'brpoplpush', k, b'H_list', b'1'], [b'brpoplpush', b'H_list', k, b'1'], [b'rpoplpush', k, k], [b'smove', k, b'H_set', b'a'], [b'sunionstore', b'd', k, b'H_set'],
+                  [b'zunionstore', b'd', b'2', k, b'H_zset'], [b'pfcount', k], [b'pfadd', k, b'x'], [b'getset', k, b'n'], [b'rename', k, b'd'], [b'dump', k], [b'exists', k, k]):
+            yield Always(HOLDERS + [f, [b'type', k], [b'exists', b'd'], [b'type', b'd']])
